@@ -1323,3 +1323,33 @@ def c20_p6(ctx):
             yield ok("C20-P6", key, "-", {"copies": sorted({ps for _f, _l, ps in found})})
     if n == 0:
         raise Anchor("C20-P6", "transactions")
+
+
+# ================================================================ C09-G9: the list has no capacity
+@rule("C09", "C09-G9", 1, "what is recorded does not depend on how many ranges are already held: no decision in the insert operation compares the number of held ranges with a bound (a segment that is left out because the list is 'full' is held in the file but not in the bookkeeping)", also=("C20", "C08"))
+def c09_g9(ctx):
+    f = ctx.one("C09-G9", "segments::Segments::merge")
+    helper = ctx.one("C09-G9", "segments::merge")
+    n = 0
+    for g in (f, helper):
+        eb = ExprBuilder(ctx.prog, g)
+        for b in g.live_blocks():
+            t = g.blocks[b]["term"]
+            if t["k"] != "switch":
+                continue
+            e = eb.operand(t["discr"])
+            for x in walk(e):
+                if x[0] == "binop" and x[1] in ("Lt", "Le", "Gt", "Ge", "Eq", "Ne"):
+                    for a, c in ((x[2], x[3]), (x[3], x[2])):
+                        ta = expr_str(a)
+                        isl = (a[0] == "call" and (callee_name(a) or "").split("::")[-1] == "len" and "[" not in ta) or (a[0] == "unop" and a[1] == "PtrMetadata")
+                        bound = None
+                        if c[0] == "const" and isinstance(c[1], int):
+                            bound = c[1]
+                        elif c[0] == "uneval":
+                            bound = expr_str(c)
+                        if isl and bound is not None and not (isinstance(bound, int) and bound <= 1):
+                            n += 1
+                            yield bad("C09-G9", "Segments::merge:bound-on-len" + ("#%d" % n if n > 1 else ""), at(g, t["span"]["line"]), "a decision in the insert operation compares the number of held ranges with %s: beyond that many ranges a received segment is not recorded although it was written to the file" % bound)
+    if n == 0:
+        yield ok("C09-G9", "Segments::merge:no-capacity", at(f), "no comparison of the list length with a bound")
